@@ -34,3 +34,15 @@ def _(src: List[Cell], except_fields: List[Int]) -> List[Cell]:
     invariant(0, contents(result) == except_spec(contents(src), contents(except_fields), __i), 'content')
     loop_types(0, i=Int, v=Cell)
     local_types(result=List[Cell])
+
+
+# the same function applied to the header (a list of names): verified once more at that type
+@contract('rbql_engine.select_except#str', name='C07.select_except_names', props=['C07', 'C01'])
+def _(src: List[Str], except_fields: List[Int]) -> List[Str]:
+    ensures(is_fresh(result), 'fresh')
+    ensures(contents(result) == except_spec_str(contents(src), contents(except_fields), len(src)), 'post')
+    invariant(0, 0 <= __i and __i <= len(src), 'idx')
+    invariant(0, is_fresh(result) and not same(result, src) and not same(result, except_fields), 'fresh')
+    invariant(0, contents(result) == except_spec_str(contents(src), contents(except_fields), __i), 'content')
+    loop_types(0, i=Int, v=Str)
+    local_types(result=List[Str])
